@@ -153,6 +153,8 @@ type X struct {
 	running     bool
 	preemptFree bool
 
+	yieldAfterUnlock bool
+
 	// free-running mode (race pass): threads never park, choices are
 	// drawn from rng, only events are sequenced by the controller.
 	free bool
@@ -503,6 +505,22 @@ func (x *X) Release(m any, kind verifsync.Kind) {
 			return
 		}
 	}
+}
+
+// AfterUnlock implements verifsync.AfterUnlockHooks: in scenarios with
+// YieldAfterUnlock every release of a shim lock is followed by a scheduling
+// point, so that code which (racily) touches shared state after dropping a
+// lock can be interleaved with other threads right there.
+func (x *X) AfterUnlock(m any, kind verifsync.Kind) {
+	if !x.yieldAfterUnlock {
+		return
+	}
+	label := "Unlocked@" + callerLabel()
+	t := x.currentOrAdopt(label)
+	if t == nil {
+		return
+	}
+	x.parkAt(t, &pending{kind: kindPoint, label: label})
 }
 
 // ---------------------------------------------------------------------------
